@@ -28,9 +28,11 @@ Proof.
   destruct s as [n k pd f pc pn]. unfold GJ, gstep, gset_pc, gpending.
   cbn [g_pc g_fixed g_calls g_count g_pend]. intros [Hf HJ] H.
   destruct pc as [| |seen| | |seen|].
-  - inversion H; subst; clear H. cbn [g_pc g_fixed g_count g_pend g_calls]. destruct f.
+  - inversion H; subst; clear H. cbn [g_pc g_fixed g_count g_pend g_calls]. destruct (Nat.eqb_spec n 0).
     + split; [intros _; split; discriminate|exact I].
-    + split; [intros E; discriminate|]. destruct (Nat.eqb_spec n 0); [exact I|]. cbn [g_pc g_count g_pend]. left. lia.
+    + destruct f; cbn [g_pc g_count g_pend].
+      * split; [intros _; split; discriminate|exact I].
+      * split; [intros E; discriminate|]. left. lia.
   - inversion H; subst; clear H. cbn [g_pc g_fixed g_count g_pend g_calls]. split.
     + intros E. destruct (Hf E) as [Hc _]. congruence.
     + split; [lia|]. intros _. exact HJ.
@@ -117,14 +119,26 @@ Proof.
   apply GJ_not_lost, GJ_grun; [apply GJ_init|]. apply gfixed_gap_free; [apply GJ_init|reflexivity].
 Qed.
 
-(* a parked waiter that has not lost its wake-up returns as soon as the count is zero and the
-   zeroing done() has notified: it is runnable, and its next two steps (wake, check) return *)
-Theorem wg_proceeds s seen : GJ s -> g_fixed s = false -> g_pc s = GAwait seen ->
-  g_count s = 0 -> g_pend s = 0 -> g_pc (grun [GW; GW] s) = GDone.
+(* liveness of the code as it is now: a parked waiter returns as soon as the count is zero and the
+   zeroing done() has notified - it is runnable, and its next three steps (wake, create, check) return *)
+Theorem wg_proceeds s seen : GJ s -> g_fixed s = true -> g_pc s = GAwait seen ->
+  g_count s = 0 -> g_pend s = 0 -> g_pc (grun [GW; GW; GW] s) = GDone.
 Proof.
   destruct s as [n k pd f pc pn]. unfold GJ, gpending. cbn [g_pc g_fixed g_calls g_count g_pend].
   intros [_ HJ] -> -> -> ->. destruct HJ as [H1 H2].
   cbv beta iota zeta delta [grun fold_left gsstep gstep g_pc g_calls g_fixed gset_pc g_count g_pend].
   destruct (Nat.eqb_spec k seen) as [E|_]; [specialize (H2 E); lia|].
   cbv beta iota zeta delta [gstep g_pc g_calls g_fixed gset_pc g_count g_pend]. reflexivity.
+Qed.
+
+(* every poll of the fixed code that ends parked leaves a waiter that has not lost its wake-up;
+   a poll that finds the count at zero with no notify outstanding returns *)
+Theorem wg_fixed_poll_returns xs : let s := grun xs (g0 true) in
+  g_count s = 0 -> g_pend s = 0 -> gstep s = None -> g_pc s = GDone.
+Proof.
+  intros s H0 Hp Hn. assert (HJ : GJ s).
+  { apply GJ_grun; [apply GJ_init|]. apply gfixed_gap_free; [apply GJ_init|reflexivity]. }
+  unfold gstep in Hn. destruct HJ as [_ HJ]. unfold gpending in HJ.
+  destruct (g_pc s) eqn:E; try discriminate; try reflexivity.
+  destruct (Nat.eqb_spec (g_calls s) seen) as [Ec|]; [|discriminate]. destruct HJ as [_ HJ]. specialize (HJ Ec). lia.
 Qed.
